@@ -38,3 +38,4 @@ Example C19_nonvacuous :
    In ([60; 60], [61]) fusing_pairs /\ pair_safe [45] [43] = true) /\
   (tok_ok punct_table [45; 45] /\ tok_ok punct_table [48; 120; 49; 112; 43; 51] /\ tok_ok punct_table [117; 56; 34; 97; 32; 98; 34]).
 Proof. exact (conj fusing_examples tok_ok_examples). Qed.
+Print Assumptions C19_nonvacuous.
